@@ -50,6 +50,13 @@ def run(rep, ctx):
         borrow(rep, c07.r6_eq_hash, ctx, "C07.R6", "C08.R7", keep=lambda o: o.key.startswith("Quantity:"))
     except AnalysisError as e:
         rep.error("C08.R7", str(e))
+    from . import c01
+    from ..convmodel import ConvModel
+    rep.rule("C08.R9", "ordering compares amounts re-expressed in one unit: the two conversion functions of every table row are inverses of each other and increasing (shared with C01.R2; only failing rows are listed)")
+    try:
+        borrow(rep, c01.r2_rows, ctx, "C01.R2", "C08.R9", ConvModel(ctx.model), keep=lambda o: o.status != "discharged")
+    except AnalysisError as e:
+        rep.error("C08.R9", str(e))
     rep.run_rule("C08.R8", "__eq__ compares the same projection of both operands in every comparison it makes (symmetric by construction)", r8_symmetric_shape, ctx)
     rep.not_decided += [
         "reflexivity and symmetry of == beyond the guard forms (exact-type or isinstance guards with Python's subclass-first dispatch)",
